@@ -69,6 +69,7 @@ type c14Case struct {
 	keys  []int // indexes into c14Keys (after the initial TAB)
 	mode  string
 	opt   string
+	pre   string // "" | "same-line": fo TAB TAB SPACE typed first | "previous-call": an earlier Readline call of the same Shell ended with fo TAB TAB Enter
 }
 
 func c14Job(id int, cs c14Case, tables []c14Table) (harness.Job, int) {
@@ -76,6 +77,9 @@ func c14Job(id int, cs c14Case, tables []c14Table) (harness.Job, int) {
 	rc := modeRC(cs.mode) + "set convert-meta off\nset input-meta on\nset output-meta on\n" + t.rc + cs.opt
 	cfg := harness.Config{RC: rc, W: 60, H: 20, Prompt: "$ ", NoHist: true, Comps: t.spec}
 	var ans []harness.Answer
+	if cs.pre == "same-line" {
+		ans = append(ans, Keys("fo", "\t", "\t", " ")...)
+	}
 	if cs.buf != "" {
 		ans = append(ans, Key(cs.buf))
 	}
@@ -87,6 +91,9 @@ func c14Job(id int, cs c14Case, tables []c14Table) (harness.Job, int) {
 	for _, k := range cs.keys {
 		ans = append(ans, Key(c14Keys[k].bytes))
 	}
+	if cs.pre == "previous-call" {
+		return harness.Job{ID: id, Cfg: cfg, Calls: [][]harness.Answer{Keys("fo", "\t", "\t", "\r"), ans}, Want: harness.Want{Obs: 2, From: from}}, from
+	}
 	return harness.Job{ID: id, Cfg: cfg, Calls: [][]harness.Answer{ans}, Want: harness.Want{Obs: 2, From: from}}, from
 }
 
@@ -95,7 +102,11 @@ func (cs c14Case) desc(tables []c14Table) string {
 	for _, k := range cs.keys {
 		ks = append(ks, c14Keys[k].name)
 	}
-	return fmt.Sprintf("buffer=%q cursor-from-end=%d candidates=%s keys=TAB %s mode=%s opt=%q", cs.buf, cs.back, tables[cs.table].name, strings.Join(ks, " "), cs.mode, strings.TrimSpace(cs.opt))
+	pre := ""
+	if cs.pre != "" {
+		pre = " after-an-earlier-completion=" + cs.pre
+	}
+	return fmt.Sprintf("buffer=%q cursor-from-end=%d candidates=%s keys=TAB %s mode=%s opt=%q%s", cs.buf, cs.back, tables[cs.table].name, strings.Join(ks, " "), cs.mode, strings.TrimSpace(cs.opt), pre)
 }
 
 func c14Verdict(cs c14Case, tables []c14Table, t *harness.Trace) (fp, what string, nontrivial bool) {
@@ -110,7 +121,7 @@ func c14Verdict(cs c14Case, tables []c14Table, t *harness.Trace) (fp, what strin
 	start := call.Waits[0].Obs
 	B := []rune(start.Line)
 	c := start.Pos
-	if start.Line != cs.buf {
+	if (cs.pre != "same-line" && start.Line != cs.buf) || !strings.HasSuffix(start.Line, cs.buf) {
 		return "", "not judged: buffer not established", false
 	}
 	w0 := c
@@ -242,11 +253,12 @@ func init() {
 			Keys  []int
 			Mode  string
 			Opt   string
+			Pre   string
 			Quick bool
 		}
 		jsonUnmarshal(w.Input, &cs)
 		tables := c14Tables(cs.Quick)
-		cc := c14Case{cs.Buf, cs.Back, cs.Table, cs.Keys, cs.Mode, cs.Opt}
+		cc := c14Case{cs.Buf, cs.Back, cs.Table, cs.Keys, cs.Mode, cs.Opt, cs.Pre}
 		j, _ := c14Job(0, cc, tables)
 		t := c.Pool.RunOne(&j)
 		fp, what, _ := c14Verdict(cc, tables, t)
@@ -295,11 +307,31 @@ func runC14(c *Ctx) {
 			}
 		}
 	}
+	// the same completions when the Shell has inserted a candidate before (earlier on the line, or in
+	// an earlier call): TAB alone and TAB + one key
+	for _, pre := range []string{"same-line", "previous-call"} {
+		for _, mode := range []string{"emacs", "vi-insert"} {
+			for ti := range tables {
+				if !tables[ti].spec.ByWord {
+					continue
+				}
+				for _, b := range bufs {
+					n := len([]rune(b))
+					for back := 0; back <= n; back++ {
+						cases = append(cases, c14Case{buf: b, back: back, table: ti, mode: mode, pre: pre})
+						for k1 := range c14Keys {
+							cases = append(cases, c14Case{buf: b, back: back, table: ti, keys: []int{k1}, mode: mode, pre: pre})
+						}
+					}
+				}
+			}
+		}
+	}
 	var tn []string
 	for _, t := range tables {
 		tn = append(tn, t.name)
 	}
-	c.Rule = fmt.Sprintf("%d buffers x every cursor position x %d candidate tables %v x key strings TAB + <= 2 of %d menu keys x {emacs, vi-insert} x %d option sets; buffers observed at every wait from the first TAB. non-trivial = distinct cases in which a candidate (or common prefix) was actually inserted", len(bufs), len(tables), tn, len(c14Keys), len(opts))
+	c.Rule = fmt.Sprintf("(+ the TAB and TAB+1 key cases again after an earlier completion on the same line / in a previous call) %d buffers x every cursor position x %d candidate tables %v x key strings TAB + <= 2 of %d menu keys x {emacs, vi-insert} x %d option sets; buffers observed at every wait from the first TAB. non-trivial = distinct cases in which a candidate (or common prefix) was actually inserted", len(bufs), len(tables), tn, len(c14Keys), len(opts))
 	c.Bounds = map[string]any{"buffers": bufs, "tables": tn, "keys": len(c14Keys), "max_keys_after_TAB": 2, "cases": len(cases)}
 	c.Assumptions = []string{"the word being completed starts at or after the last blank before the cursor", "after the menu closes, later typed keys edit the line: only 'text before the word' and 'text after the cursor' are judged there"}
 	next := 0
@@ -352,7 +384,7 @@ func runC14(c *Ctx) {
 		}
 		jj := *j
 		c.Violate(Witness{Fingerprint: fp, What: what, Engine: "session", Job: &jj,
-			Input: jsonRaw(map[string]any{"Buf": cs.buf, "Back": cs.back, "Table": cs.table, "Keys": cs.keys, "Mode": cs.mode, "Opt": cs.opt, "Quick": quick})}, func() string {
+			Input: jsonRaw(map[string]any{"Buf": cs.buf, "Back": cs.back, "Table": cs.table, "Keys": cs.keys, "Mode": cs.mode, "Opt": cs.opt, "Pre": cs.pre, "Quick": quick})}, func() string {
 			f, _, _ := c14Verdict(cs, tables, c.Pool.RunOne(&jj))
 			return f
 		})
